@@ -213,7 +213,8 @@ func lkGenRaw(r *Rng) lkCase {
 // genProvides: the territory the fixpoint theorems do not cover yet (relock_exact_partial stops at provides):
 // provides chains (a -> v0, the provider of v0 -> v1, ...), one virtual name provided by two or three packages
 // (unversioned, versioned, with the provider's own version), version-constrained dependencies and world entries
-// on virtual names, dependencies whose operator run is no operator (`==`, `><`: class F09l).  One or two
+// on virtual names, dependencies whose operator run is no operator (`==`, `><`: class F09l), packages that provide
+// their own name or one name twice (F09m), `!x` dependencies on virtual names (F09n).  One or two
 // indexes (the second sometimes pinned), mostly one architecture.  Every failing round trip must fall into a
 // listed class: this is the search for holes in the class list where relock_unlisted_exact_partial does not reach.
 func lkGenProvides(r *Rng, tier string) lkCase {
@@ -291,6 +292,33 @@ func lkGenProvides(r *Rng, tier string) lkCase {
 					p.Provides = append(p.Provides, vt+"="+v)
 				default:
 					p.Provides = append(p.Provides, vt+"="+Pick(r, []string{"1.0", "2.0", "1.0-r0"}))
+				}
+			}
+			// shapes of the classes F09m / F09n: a package that provides its own name, or one name twice; a `!x`
+			// dependency on a virtual name (the candidate filter of disqualifyProviders tests the provider's own version)
+			if r.Chance(4) {
+				if r.Bool() {
+					p.Provides = append(p.Provides, n+"="+v)
+				} else {
+					p.Provides = append(p.Provides, n)
+				}
+			}
+			if len(p.Provides) > 0 && r.Chance(4) {
+				nm, _ := lkProvidedName(p.Provides[0])
+				p.Provides = append(p.Provides, nm+"="+Pick(r, []string{"1.0", "2.0"}))
+			}
+			if r.Chance(6) {
+				t := Pick(r, virts)
+				if r.Chance(30) {
+					t = Pick(r, names)
+				}
+				if t != n && !contains(provOf[n], t) {
+					switch r.Intn(3) {
+					case 0:
+						p.Deps = append(p.Deps, "!"+t)
+					default:
+						p.Deps = append(p.Deps, "!"+t+Pick(r, []string{">=", "<", "=", ">"})+Pick(r, []string{"1.0", "2.0", "1.0-r0", "1.1-r0"}))
+					}
 				}
 			}
 			if vt, ok := chain[n]; ok {
